@@ -564,7 +564,7 @@ def run(prop, tier):
             kinds = sorted({hit_kind(h[1]) for h in state["f26"]})
             ck.known("F26 reproduces in %d of %d cases of its input class (%s), e.g. %s | %s; replay=corpus/C07/f26_signal_inside_stop_after_last_look.txt" % (
                 len(state["f26_cases"]), state["f26_run"], ", ".join(kinds), state["f26"][0][1][:160],
-                known["F26"].get("line", F26_TEXT)[:300]))
+                re.sub(r"^KNOWN-FINDING: property=\S+ F26 ", "", known["F26"].get("line", F26_TEXT))[:300]))
         elif "F26" in known:
             ck.notes.append("listed finding F26 did not reproduce in this run (%d cases of its input class ran)" % state["f26_run"])
         for fid in sorted(known):
